@@ -46,3 +46,12 @@ pub proof fn lemma_string_of_utf8(s: String)
 }
 pub open spec fn string_of_chars(c: Seq<char>) -> String { choose|s: String| s@ == c }
 pub proof fn lemma_string_of_chars(s: String) ensures string_of_chars(s@) == s { axiom_string_ext(s, string_of_chars(s@)); }
+// R1S: `format!("{0}:{1}", a, b)` (only positional `{N}` placeholders) is the concatenation of the Display text of its pieces;
+// Display of &str / String / Cow<str> writes the string itself (std documentation). Trusted.
+pub trait VxDisplay { spec fn disp(&self) -> Seq<char>; }
+impl VxDisplay for &str { open spec fn disp(&self) -> Seq<char> { self@ } }
+impl VxDisplay for String { open spec fn disp(&self) -> Seq<char> { self@ } }
+#[verifier::external_body]
+pub fn vx_cat<A: VxDisplay, B: VxDisplay>(a: A, b: B) -> (r: String)
+    ensures r@ == a.disp() + b.disp(),
+{ unimplemented!() }
